@@ -1,11 +1,15 @@
 (* C20 — A user's balance is the same in shared memory and .PASSWDS and never negative.
    Only statements here; every proof is `exact <lemma of Proofs/C20.v>`.
    Vocabulary (Model/C20.v): st = (shm : index -> balance of the segment, file : bytes of .PASSWDS);
-   step / run = SetUMoney, DeUMoney, MoneyOf as written in cache/cache_money.go and cache/passwd.go;
-   spec_step / spec_run = plain arithmetic on a map slot -> balance (set, credit, saturating debit);
-   valid u = 1 <= u <= MAX_USERS; hist_ok = every operation is on a valid slot, every amount is an int32 and
-   every sum stays inside int32; Agree s b = the file has MAX_USERS records and on every valid slot
-   segment = Money field of the record = b. *)
+   step / run = SetUMoney, DeUMoney, MoneyOf as written in cache/cache_money.go and cache/passwd.go, and the other
+   writers of a user's record interleaved with them: OpRewrite u rec = ptt.passwdSyncUpdate(u, rec) (the end of
+   every pwcu* update, SetUserPerm, killUser, SetupNewUser) with ANY record rec of the caller's — any Money in it,
+   stale or zero —, OpPart u k bs = cmbbs.PasswdUpdatePasswd / PasswdUpdateEmail;
+   spec_step / spec_run = plain arithmetic on a map slot -> balance (set, credit, saturating debit; the record
+   writers change no balance);
+   valid u = 1 <= u <= MAX_USERS; hist_ok = every operation is on a valid slot, every amount is an int32,
+   every sum stays inside int32, a record has USEREC_RAW_SZ bytes and a field its own size; Agree s b = the file
+   has MAX_USERS records and on every valid slot segment = Money field of the record = b. *)
 From Verif Require Import Base.Common Model.C20 Proofs.C20.
 
 (* a cold load of any .PASSWDS of MAX_USERS records starts the three views in agreement *)
@@ -14,9 +18,11 @@ Theorem C20_load_agree : forall f, length f = Z.to_nat (MAXU * RECSZ) ->
 Proof. exact load_agree. Qed.
 Print Assumptions C20_load_agree.
 
-(* for all histories on valid slots (first and last included) whose sums stay inside int32, after EVERY step
-   (every prefix of the history) and on every valid slot: the segment, the decoded Money field of the record,
-   what MoneyOf answers and plain arithmetic are equal; and every call returned the arithmetic value, no error *)
+(* for all histories on valid slots (first and last included) whose sums stay inside int32 — money operations
+   interleaved in any order with whole-record write-backs of arbitrary caller records and one-field updates —,
+   after EVERY step (every prefix of the history) and on every valid slot: the segment, the decoded Money field of
+   the record, what MoneyOf answers and plain arithmetic are equal; and every call returned the arithmetic value
+   (a write-back hands the balance back in the caller's record), no error *)
 Theorem C20_agree : forall h s b n, Agree s b -> hist_ok b h ->
   let h' := firstn n h in
   (forall u, valid u ->
@@ -49,18 +55,63 @@ Theorem C20_invalid_slot : forall s u m, ~ valid u ->
 Proof. exact invalid_slot. Qed.
 Print Assumptions C20_invalid_slot.
 
-(* frame: whatever the operation does, the file keeps its length, every byte outside the 4 bytes of the
-   addressed record's Money field is unchanged (all other records, all other fields of this one), and
-   no other balance of the segment changes *)
-Theorem C20_frame : forall s o, length (file s) = Z.to_nat (MAXU * RECSZ) ->
-  let s' := fst (step s o) in let u := target o in
+(* ... the same for the writers of the whole record / of one field: error, nothing written *)
+Theorem C20_invalid_slot_writers : forall s u (rec : list Z) k (bs : list Z), ~ valid u ->
+  step s (OpRewrite u rec) = (s, OErr (rec_money rec) ERR_INVALID_UID) /\ step s (OpPart u k bs) = (s, OErr 0 ERR_INVALID_UID).
+Proof. exact invalid_slot_writers. Qed.
+Print Assumptions C20_invalid_slot_writers.
+
+(* the overlay of passwdSyncUpdate, with NO agreement assumed: after a whole-record write-back of any record rec the
+   Money field of record u in the file is the balance the segment holds (whatever Money rec carried, whatever the
+   file held), the call hands that balance back, no balance of the segment changes, and every other byte of the
+   record in the file is rec's *)
+Theorem C20_rewrite_overlay : forall s u (rec : list Z), length (file s) = Z.to_nat (MAXU * RECSZ) -> valid u ->
+  length rec = Z.to_nat RECSZ -> int32 (shm s (u - 1)) ->
+  let s' := fst (step s (OpRewrite u rec)) in
+  snd (step s (OpRewrite u rec)) = OVal (shm s (u - 1)) /\
+  money_field (file s') u = shm s (u - 1) /\
+  (forall j, shm s' j = shm s j) /\
+  (forall k, (k < Z.to_nat RECSZ)%nat -> (k < Z.to_nat MONEY_OFF \/ Z.to_nat MONEY_OFF + 4 <= k)%nat ->
+     nth (rec_pos u + k) (file s') 0 = nth k rec 0).
+Proof. exact rewrite_overlay. Qed.
+Print Assumptions C20_rewrite_overlay.
+
+(* frame: whatever the operation does, the file keeps its length, every byte outside the operation's footprint is
+   unchanged, and no other balance of the segment changes. footprint (Model/C20.v) = the 4 bytes of the addressed
+   record's Money field for SetUMoney / DeUMoney / MoneyOf (so: all other records and all other fields of this one
+   are unchanged, as before), the addressed record for a whole-record write-back, the field for a one-field update *)
+Theorem C20_frame : forall s o, length (file s) = Z.to_nat (MAXU * RECSZ) -> op_shape o ->
+  let s' := fst (step s o) in let u := target o in let p := fst (footprint o) in let n := snd (footprint o) in
   length (file s') = length (file s) /\
-  (forall i, (i < money_pos u \/ money_pos u + 4 <= i)%nat -> nth i (file s') 0 = nth i (file s) 0) /\
+  (forall i, (i < p \/ p + n <= i)%nat -> nth i (file s') 0 = nth i (file s) 0) /\
   (forall j, j <> u - 1 -> shm s' j = shm s j).
 Proof. exact frame. Qed.
 Print Assumptions C20_frame.
 
-(* ... and those 4 bytes lie inside record u *)
+(* ... the record writers change no balance of the segment at all *)
+Theorem C20_writers_keep_segment : forall s o, length (file s) = Z.to_nat (MAXU * RECSZ) -> op_shape o ->
+  match o with OpRewrite _ _ | OpPart _ _ _ => forall j, shm (fst (step s o)) j = shm s j | _ => True end.
+Proof. exact writers_keep_shm. Qed.
+Print Assumptions C20_writers_keep_segment.
+
+(* ... every footprint of an operation on a valid slot lies inside that slot's record *)
+Theorem C20_footprint_inside_record : forall o, valid (target o) ->
+  RECSZ * (target o - 1) <= Z.of_nat (fst (footprint o)) /\
+  Z.of_nat (fst (footprint o)) + Z.of_nat (snd (footprint o)) <= RECSZ * target o.
+Proof. exact footprint_in_record. Qed.
+Print Assumptions C20_footprint_inside_record.
+
+(* "no other user's record changes", for whole histories (any slots, valid or not, any operations): a user v that no
+   operation of the history addresses keeps every byte of the record and the balance in the segment *)
+Theorem C20_frame_history : forall h s v, length (file s) = Z.to_nat (MAXU * RECSZ) -> Forall op_shape h -> valid v ->
+  (forall o, In o h -> target o <> v) ->
+  length (file (fst (run s h))) = length (file s) /\
+  (forall i, RECSZ * (v - 1) <= Z.of_nat i < RECSZ * v -> nth i (file (fst (run s h))) 0 = nth i (file s) 0) /\
+  shm (fst (run s h)) (v - 1) = shm s (v - 1).
+Proof. exact run_frame. Qed.
+Print Assumptions C20_frame_history.
+
+(* ... and the 4 bytes of the Money field lie inside record u *)
 Theorem C20_field_inside_record : forall u, valid u ->
   RECSZ * (u - 1) <= Z.of_nat (money_pos u) /\ Z.of_nat (money_pos u) + 4 <= RECSZ * u.
 Proof. exact money_pos_in_record. Qed.
